@@ -15,6 +15,7 @@ type C08Case struct {
 	Doc     Doc  `json:"doc"`
 	UseFile bool `json:"use_file"`        // read the -o file instead of stdout
 	Stale   bool `json:"stale,omitempty"` // the -o path already exists and is longer than the new result
+	Debug   bool `json:"debug,omitempty"` // --debug: diagnostics go to stderr, what is written is still the file
 	Huge    bool `json:"huge,omitempty"`  // contains a duration near or beyond what a MIDI delta time can hold: refusing it is fine
 }
 
@@ -56,6 +57,9 @@ func checkC08(c C08Case) *Violation {
 	ctx := fmt.Sprintf("\nargs=%v\n%s", d.Flags.Argv(), d.YAML())
 	argv := append([]string{"write"}, d.Flags.Argv()...)
 	run := Run{Argv: argv, Stdin: d.YAML()}
+	if c.Debug {
+		run.Argv = append(run.Argv, "--debug")
+	}
 	if c.UseFile {
 		run.Argv = append(run.Argv, "-o", "@out.mid")
 		run.OutArg = "out.mid"
@@ -135,7 +139,7 @@ func TestC08(t *testing.T) {
 			}
 			huge = true
 		}
-		c := C08Case{Doc: d, UseFile: coin(t, "use-file", 30), Huge: huge}
+		c := C08Case{Doc: d, UseFile: coin(t, "use-file", 30), Huge: huge, Debug: len(d.Insts) <= 40 && coin(t, "debug", 10)}
 		c.Stale = c.UseFile && rapid.Bool().Draw(t, "stale-output-file")
 		nt := d.Flags.Track >= 2 || d.Flags.Instrument != nil || d.Flags.Program != nil
 		var classes []string
@@ -160,6 +164,9 @@ func TestC08(t *testing.T) {
 		if c.Stale {
 			classes = append(classes, "o-file-overwrites-longer-file")
 		}
+		if c.Debug {
+			classes = append(classes, "with---debug")
+		}
 		if c.Huge {
 			nt = true
 			classes = append(classes, "duration-near-or-beyond-2^28-ticks")
@@ -167,7 +174,7 @@ func TestC08(t *testing.T) {
 		if d.Flags.Program != nil && *d.Flags.Program > 127 {
 			classes = append(classes, "program>127")
 		}
-		r.Case(d.YAML()+fmt.Sprint(d.Flags.Argv(), c.UseFile, c.Stale), nt, dedup(classes)...)
+		r.Case(d.YAML()+fmt.Sprint(d.Flags.Argv(), c.UseFile, c.Stale, c.Debug), nt, dedup(classes)...)
 		r.Sample(map[string]any{"args": d.Flags.Argv(), "yaml": d.YAML(), "use_file": c.UseFile})
 		r.Check(t, checkC08(c), "c08", c)
 	})
